@@ -965,7 +965,7 @@ func main() {
 	}
 	hxlib.Main(&hxlib.Harness{
 		Prop:     "C17",
-		Rule:     "a case is one run of one real writer (renameio.WriteFile/Symlink, utils.CreateAtomic/CopyFileAtomic/ReplaceFileAtomic, fstree.Put, updater download via DownloadUpdates against an in-process HTTP server incl. signed and missing-signature downloads, updater.UnpackResources, File.Unpack) in a child process under a ptrace system-call stepper: once to completion and once per crash point k (killed immediately before its k-th file-system-mutating system call; all k when there are few, first/last/random k otherwise), over old states absent / present / present read-only / symlink / directory, contents empty / tiny / small / chunk-boundary sizes / medium / multi-MiB (random or with magic prefixes), TMPDIR on the same file system / on another file system / unusable / explicit temp dir (same and other file system), failing operations (reader error, missing source; for downloads an in-process server playing per attempt one of 27 answers — body truncated by orderly close or reset at byte 0 / 1 / half / last / random under Content-Length, chunked, close-delimited or HTTP/1.0 framing, body longer or shorter than announced, complete but unannounced, gzip Content-Encoding complete or cut, 204 / 206 / 301 / 302-to-complete / 304 / 404 / 500 / 503, no answer — alone or followed by a retry with a complete answer, through DownloadUpdates and GetFile, unsigned or with signature verification: valid, body not matching the signature under require / warn, unusable signature, no signature; for unpacking gzip files with corrupt trailer / corrupt data / cut in the data / cut in the trailer / trailing garbage / no gzip header and zip archives with a corrupt member / a member shorter than its header / cut in the middle) and history (the same operation killed earlier on the same sandbox). Lines: initial snapshot, translated system calls, final snapshot; per call the errno and the destination as a reader sees it are compared between the kernel and the Lean file-system model, the final snapshot likewise, the Lean safePublish / onlyTemp checkers run on the actual call sequence, and the run must be a path of the Lean program of the writer with the same return value; for downloads that program is derived by the model from the server behaviour (transport + fetchDecision over the guards regenerated from updater/fetch.go), and on complete runs what the client saw of every response (status, ContentLength, bytes read, read error — observed by a wrapper around http.DefaultTransport), the bytes written and the publish / abort outcome of every attempt, and the publish decision of File.Unpack / unpackZipArchive are compared with the model as well. Non-trivial: the run issued at least one mutating call; distinct by the hash of the lines.",
+		Rule:     "a case is one run of one real writer (renameio.WriteFile/Symlink, utils.CreateAtomic/CopyFileAtomic/ReplaceFileAtomic, fstree.Put, updater download via DownloadUpdates against an in-process HTTP server incl. signed and missing-signature downloads, updater.UnpackResources, File.Unpack) in a child process under a ptrace system-call stepper: once to completion and once per crash point k (killed immediately before its k-th file-system-mutating system call; all k when there are few, first/last/random k otherwise), over old states absent / present / present read-only / symlink / directory, contents empty / tiny / small / chunk-boundary sizes / medium / multi-MiB (random or with magic prefixes), TMPDIR on the same file system / on another file system / unusable / explicit temp dir (same and other file system), failing operations (reader error, missing source; for downloads an in-process server playing per attempt one of 27 answers — body truncated by orderly close or reset at byte 0 / 1 / half / last / random under Content-Length, chunked, close-delimited or HTTP/1.0 framing, body longer or shorter than announced, complete but unannounced, gzip Content-Encoding complete or cut, 204 / 206 / 301 / 302-to-complete / 304 / 404 / 500 / 503, no answer — alone or followed by a retry with a complete answer, through DownloadUpdates and GetFile, unsigned or with signature verification: valid, body not matching the signature under require / warn, unusable signature, no signature; for unpacking gzip files with corrupt trailer / corrupt data / cut in the data / cut in the trailer / trailing garbage / no gzip header and zip archives with a corrupt member / a member shorter than its header / cut in the middle) and history (the same operation killed earlier on the same sandbox). Lines: initial snapshot, translated system calls, final snapshot; per call the errno and the destination as a reader sees it are compared between the kernel and the Lean file-system model, the final snapshot likewise, the Lean safePublish / onlyTemp checkers run on the actual call sequence, and the run must be a path of the Lean program of the writer with the same return value; for downloads that program is derived by the model from the server behaviour (transport + fetchDecision over the guards regenerated from updater/fetch.go), and on complete runs what the client saw of every response (status, ContentLength, bytes read, read error — observed by a wrapper around http.DefaultTransport), the bytes written and the publish / abort outcome of every attempt, and the publish decision of File.Unpack / unpackZipArchive are compared with the model as well. Two-writers cases (no model lines, untraced): two goroutines run the same kind of operation on ONE destination — UnpackResources of an archive with a large member (the second call is started when the first member of the first call exists in the temp directory), utils.CreateAtomic and File.Unpack (the first call is held in the middle of its content until the second has returned), GetFile downloads, renameio.WriteFile and fstree.Put of different contents (started together) — with three free-running readers; judged: every state a reader saw is the previous state or a complete new content, once one call has returned successfully the destination shows a complete new content (also at the end), nothing is left outside the temporary location. Non-trivial: the run issued at least one mutating call (two-writers: both calls returned); distinct by the hash of the lines.",
 		Generate: generate,
 		NewExec:  func(*hxlib.Run) hxlib.Exec { return &c17exec{} },
 		Monitor:  monitor,
